@@ -1334,6 +1334,45 @@ fn run_tb_case(case: &str) -> (String, String) {
             None => {}
         }
     }
+    // `tbi … W … INT …`: in an interactive shell (internal disposition `Catch` for SIGINT) with no user action on
+    // SIGINT, a SIGINT that arrives during `wait` interrupts the built-in: the script of this (non-interactive)
+    // read-eval loop ends with 128+SIGINT (386), no later `R` statement runs, and every OTHER trapped signal sent in
+    // the same batch still runs its action exactly once (at the hook after `wait`, seeing `$?` = 386).
+    if interactive {
+        if let Some(i) = parts.iter().position(|p| p.first() == Some(&"W") && p[1..].contains(&"INT")) {
+            let touched_int = parts[..i].iter().any(|q| matches!(q.first(), Some(&"T") | Some(&"TN")) && q[1..].iter().any(|w| *w == "INT" || *w == "2"))
+                || ign_set.contains(&SIGINT);
+            let left = parts[..i].iter().any(|q| matches!(q.first(), Some(&"X") | Some(&"TX") | Some(&"K") | Some(&"W")));
+            if !touched_int && !left {
+                if end != "exit" || o.exit_status != 386 {
+                    oracle = format!("FAIL:sigint-did-not-interrupt-wait:end={end}:exit={}", o.exit_status);
+                }
+                for q in &parts[i + 1..] {
+                    if let ["R", n] = q.as_slice() {
+                        let l = format!(":{}", enc_str(n));
+                        // (an action `c<n>` with the same number would print the same text: the families keep them apart)
+                        if lines.iter().any(|x| !x.starts_with("T:") && x.ends_with(&l)) {
+                            oracle = format!("FAIL:command-ran-after-interrupted-wait:{n}");
+                        }
+                    }
+                }
+                // other trapped signals of the batch: last `T c<N> SIG` before the `W`
+                for sig in parts[i][1..].iter().filter(|s| **s != "INT") {
+                    let act = parts[..i].iter().rev().find_map(|q| match q.as_slice() {
+                        ["T", a, ops @ ..] if ops.contains(sig) => Some(*a),
+                        _ => None,
+                    });
+                    if let Some(n) = act.and_then(|a| a.strip_prefix('c')) {
+                        let l = format!("386:{}", enc_str(n));
+                        let ran = lines.iter().filter(|x| **x == l).count();
+                        if ran != 1 {
+                            oracle = format!("FAIL:{sig}:caught-with-sigint-during-wait-ran-{ran}");
+                        }
+                    }
+                }
+            }
+        }
+    }
     for l in &lines {
         let ok = l == "-" || l.starts_with("T:") || l.split_once(':').is_some_and(|(a, b)| a.parse::<i32>().is_ok() && yverif::proto::dec_str(b).is_some());
         if !ok {
@@ -2264,6 +2303,21 @@ fn main() {
         emit_tb(format!("tbi {ig}T c1 USR1; K USR1; R 1; T rUSR1.5 USR1; K USR1; R 2; R 3"), &mut out);
         emit_tb(format!("tbi {ig}T c1 0; T c2 HUP; K HUP; R 1; X 3"), &mut out);
     }
+    // (i') SIGINT interrupting `wait` in an interactive shell (`wait/core.rs`: the shortcut before the loop), alone and
+    //      in one batch with other trapped / ignored / untrapped-ignored signals, in every order; with an EXIT trap;
+    //      and the cases where the shortcut must NOT apply (SIGINT trapped or ignored by the user)
+    for pre in ["", "T c4 USR1; ", "T c4 USR1; T c6 HUP; ", "T E USR1; ", "T c5 0; T c4 USR1; ", "ign HUP; T c4 USR1; "] {
+        for w in ["INT", "USR1 INT", "INT USR1", "HUP INT USR1", "USR1 HUP INT", "INT INT"] {
+            if (w.contains("HUP") && !pre.contains("HUP")) || (w.contains("USR1") && !pre.contains("USR1")) {
+                continue; // an untrapped signal would end the shell
+            }
+            emit_tb(format!("tbi {pre}W {w}; R 1; R 2"), &mut out);
+        }
+        emit_tb(format!("tbi {pre}T c7 INT; W INT; R 1; R 2"), &mut out);
+        emit_tb(format!("tbi {pre}T E INT; W INT; R 1; R 2"), &mut out);
+        emit_tb(format!("tbi {pre}T c7 INT; T - INT; W INT; R 1"), &mut out);
+    }
+    emit_tb("tb".to_string(), &mut out); // the empty script (`runner.rs`: no command executed → status 0)
     // (e') actions that deliver their own signal again while they run (once: they replace themselves
     //      first), entered at a command boundary and on the interrupting-`wait` path, alone and together
     //      with another trapped signal, then delivered again
